@@ -430,6 +430,54 @@ theorem early_data_never_matches (N : Net Addr Prefix) (cfg : Cfg Prefix) (range
     (serveConsumers N cfg ranges c w).remoteMatch = false := by
   simp [serveConsumers, consumers, he]
 
+/-- **the sticky cookie's `Secure` attribute of an untrusted peer comes from the connection.**
+    Under the `cookie` selection policy a peer that is not a server-level trusted proxy gets
+    `Secure` iff its own connection is TLS — whatever X-Forwarded-Proto (or anything else) it sent. -/
+theorem untrusted_cookie_secure_from_connection (N : Net Addr Prefix) (cfg : Cfg Prefix) (c : Conn)
+    (w : List (Bytes × Bytes)) (hs : serverTrusts N cfg c = false) (b : Bool)
+    (h : cookieSecure N cfg c w = some b) : b = c.tls := by
+  unfold cookieSecure at h
+  rw [determine_untrusted N cfg c _ hs] at h
+  cases hp : prepareRequest N cfg c false (applyOmit cfg (fromWire w)) with
+  | none => simp [hp] at h
+  | some hdr =>
+    simp only [hp, Option.map_some, Option.some.injEq] at h
+    rw [← h]
+    simp [cookieSecureOf]
+
+/-- for a trusted proxy the attribute may also come from the X-Forwarded-Proto that is SENT upstream
+    (its last value being `https`) — never from anything else -/
+theorem cookie_secure_spec (N : Net Addr Prefix) (cfg : Cfg Prefix) (c : Conn) (w : List (Bytes × Bytes))
+    (b : Bool) (h : cookieSecure N cfg c w = some b) (hb : b = true) :
+    c.tls = true ∨ (serverTrusts N cfg c = true ∧
+      ∃ f vs, (serve N cfg c w).fwd = some f ∧ f.xfp = some (some vs) ∧ vs.getLast? = some sHttps) := by
+  unfold cookieSecure at h
+  cases hp : prepareRequest N cfg c (determineTrustedProxy N cfg c (fromWire w)).1 (applyOmit cfg (fromWire w)) with
+  | none => simp [hp] at h
+  | some hdr =>
+    simp only [hp, Option.map_some, Option.some.injEq] at h
+    subst hb
+    unfold cookieSecureOf at h
+    cases ht : c.tls with
+    | true => exact Or.inl rfl
+    | false =>
+      right
+      simp only [ht, Bool.false_or, Bool.and_eq_true, decide_eq_true_eq] at h
+      obtain ⟨⟨h1, h2⟩, h3⟩ := h
+      refine ⟨by rw [← trusted_flag_iff N cfg c w]; exact h1, fwdOf hdr, ?_⟩
+      unfold lastHeaderValue at h2 h3
+      cases hg : hGet hdr kXFP with
+      | none => simp [hg] at h2
+      | some o =>
+        cases o with
+        | none => simp [hg] at h3; exact absurd h3.symm (by decide)
+        | some vs =>
+          cases vs with
+          | nil => simp [hg] at h2
+          | cons v vs =>
+            simp only [hg] at h3
+            exact ⟨v :: vs, by simp [serve, hp], by simp [fwdOf, hg], by rw [lastOf_eq_getLast?, h3]⟩
+
 /-! ## the `Connection` header cannot make the proxy's own fields disappear -/
 
 /-- **a client cannot smuggle `Connection: X-Forwarded-For` to have caddy's own header dropped.**
@@ -722,6 +770,11 @@ example : peerAddr toyNet exEarly = some b!"10.0.0.1" ∧
     serveAttempts toyNet exCfg exEarly exSmuggle .none 1 =
       some (List.replicate 2 ⟨some (some [b!"10.0.0.1"]), some (some [b!"https"]), some (some [b!"example.com"])⟩) := by
   decide
+-- cookie policy: the untrusted peer's "X-Forwarded-Proto: https" does not make the cookie Secure on a plain
+-- connection; the trusted proxy's does
+example : cookieSecure toyNet exCfg ⟨b!"8.8.8.8:1", false, b!"h", false⟩ exHeaders = some false ∧
+    cookieSecure toyNet exCfg exTrusted [(b!"X-Forwarded-Proto", b!"https")] = some true ∧
+    cookieSecure toyNet exCfg exTrusted exHeaders = some false := by decide
 -- elements_are_per_value
 example : elements [b!"a,b", b!"", b!"c"] = [b!"a", b!"b", b!"", b!"c"] := by decide
 -- trimSpace_never_runs_out_of_fuel: NBSP, EM SPACE and ASCII blanks around an address
